@@ -163,6 +163,42 @@ func targetsOf(args []RelArg) []ecs.Entity {
 	return out
 }
 
+// useComps passes the component list to a builder call in a slice the caller keeps (with spare capacity) and, once the
+// whole builder chain is done (flushScramble), overwrites that slice and appends to it, as a caller that reuses its
+// scratch slice would. A library that kept the slice instead of copying it then sees other components.
+func useComps(idx []int, call func([]ecs.Comp)) {
+	if len(idx) == 0 {
+		return
+	}
+	l := make([]ecs.Comp, len(idx), len(idx)+3)
+	for i, c := range idx {
+		l[i] = comps.All[c].Comp
+	}
+	call(l)
+	scrambleMu.Lock()
+	defer scrambleMu.Unlock()
+	pendingScramble = append(pendingScramble, func() {
+		for i, c := range idx {
+			l[i] = comps.All[(c+5)%comps.N].Comp
+		}
+		_ = append(l, comps.All[(idx[0]+9)%comps.N].Comp, comps.All[(idx[0]+3)%comps.N].Comp)
+	})
+}
+
+var (
+	pendingScramble []func()
+	scrambleMu      sync.Mutex
+)
+
+func flushScramble() {
+	scrambleMu.Lock()
+	defer scrambleMu.Unlock()
+	for _, f := range pendingScramble {
+		f()
+	}
+	pendingScramble = pendingScramble[:0]
+}
+
 func compsOf(idx []int) []ecs.Comp {
 	out := make([]ecs.Comp, len(idx))
 	for i, c := range idx {
